@@ -1,7 +1,7 @@
 (* Single entry point of the judges: a command (list of numbers) to the canonical encoding of the
    model's output.  Used by the kernel judge (cases_*.v, vm_compute) and by the extracted driver. *)
 From Spl Require Export Judge.Dump.
-From Spl Require Model.Lifecycle.
+From Spl Require Model.Lifecycle Model.Doc.
 
 Fixpoint take_bytes (n : N) (s : text) (fuel : nat) : option text :=
   if n =? 0 then Some [] else
@@ -72,10 +72,48 @@ Definition run_lifecycle (args : list N) : list N :=
   end.
 End LC.
 
+(* ---- C08: positions and content changes ---- *)
+Module DC.
+Import Spl.Model.Doc.
+Definition run_gii (args : list N) : list N :=
+  match args with l :: c :: t => [get_insertion_index l c t] | _ => [4] end.
+Definition run_pos (args : list N) : list N :=
+  match args with i :: t => let p := as_position i t in [fst p; snd p] | _ => [4] end.
+(* changes: k, then per change: has_range, l1, c1, l2, c2, m, ins[m] *)
+Fixpoint parse_changes (k : nat) (l : list N) : list change :=
+  match k with
+  | O => []
+  | S k' =>
+      match l with
+      | hr :: l1 :: c1 :: l2 :: c2 :: m :: r =>
+          let (ins, r') := split_at m r in
+          {| crange := if hr =? 1 then Some ((l1, c1), (l2, c2)) else None; ctext := ins |} :: parse_changes k' r'
+      | _ => []
+      end
+  end.
+Definition run_apply (args : list N) : list N :=
+  match args with
+  | n :: rest =>
+      let (t, rest1) := split_at n rest in
+      match rest1 with
+      | k :: r =>
+          match apply_changes t (parse_changes (N.to_nat k) r) with
+          | Some t' => 0 :: enc_text t'
+          | None => [1]
+          end
+      | _ => [4]
+      end
+  | _ => [4]
+  end.
+End DC.
+
 Definition judge_run (cmd : list N) : list N :=
   match cmd with
   | 1 :: args => run_lex args
   | 2 :: args => run_update args
   | 3 :: args => LC.run_lifecycle args
+  | 4 :: args => DC.run_gii args
+  | 5 :: args => DC.run_pos args
+  | 6 :: args => DC.run_apply args
   | _ => [4]
   end.
